@@ -1,10 +1,12 @@
 use crate::report::{Property, Tier};
 
 pub mod codec_common;
+pub mod c01;
 pub mod c07;
 
 pub fn get(id: &str, tier: Tier) -> Option<Property> {
     Some(match id {
+        "C01" => c01::property(tier),
         "C07" => c07::property(tier),
         _ => return None,
     })
